@@ -1457,6 +1457,9 @@ open GeoVerif.Accum
 
 /-! ### (d) `AreaReduce` on the two-word accumulator: the four (reverse, sign) outputs -/
 
+/-- the `remainder` step is C16's `Accumulator::remainder` -/
+theorem accRemainder_eq (a : Acc) (y : F64) : accRemainder a y = Accum.remainder a y := rfl
+
 /-- the three stages (as for the exact-arithmetic `areaReduce`: `areaReduce_stages`) -/
 theorem areaReduceAcc_stages (a : Acc) (A : F64) (c : ℤ) (rv sg : Bool) :
     areaReduceAcc a A c rv sg = windowAcc A sg (orientAcc rv (adjAcc a A c)) := rfl
@@ -1533,7 +1536,7 @@ theorem areaReduceAcc_unsigned_complement_held (a : Acc) (A : F64) (c : ℤ) (rv
     let o := orientAcc rv (adjAcc a A c)
     let p := MathF.sum A o.t
     let q := MathF.sum p.1 o.s
-    |held (areaReduceAcc a A c rv false) + held (areaReduceAcc a A c (!rv) false) - A.val|
+    |heldQ (areaReduceAcc a A c rv false) + heldQ (areaReduceAcc a A c (!rv) false) - A.val|
       ≤ max (|q.2.val + p.2.val| * (2:ℚ) ^ (-(53:ℤ))) ((2:ℚ) ^ (-(1075:ℤ))) := by
   intro o p q
   have e1 : areaReduceAcc a A c (!rv) false = negate o := by
@@ -1541,9 +1544,9 @@ theorem areaReduceAcc_unsigned_complement_held (a : Acc) (A : F64) (c : ℤ) (rv
   have e2 : areaReduceAcc a A c rv false = Accum.add o A := by
     rw [areaReduceAcc_stages]; unfold windowAcc; simp [hneg, hlt]; rfl
   have key := (GeoVerif.Props.C16.accum_add_step o A hs ht hA bs bt bA).2.2.2.2
-  rw [e1, e2, held_negate]
-  have : held (Accum.add o A) + -held o - A.val = (Accum.add o A).s.val + (Accum.add o A).t.val - (o.s.val + o.t.val + A.val) := by
-    simp only [held]; ring
+  rw [e1, e2, heldQ_negate]
+  have : heldQ (Accum.add o A) + -heldQ o - A.val = (Accum.add o A).s.val + (Accum.add o A).t.val - (o.s.val + o.t.val + A.val) := by
+    simp only [heldQ]; ring
   rw [this]; exact key
 
 
